@@ -21,6 +21,8 @@ class TimeLike (τ : Type) where
   beq : τ → τ → Bool
   ofInt : Int → τ
   repr : τ → String
+  /-- for traces: numerator/denominator (floats: bit pattern, 0) -/
+  toPair : τ → Int × Int
 
 namespace TimeLike
 variable {τ : Type} [TimeLike τ]
@@ -39,6 +41,7 @@ instance : TimeLike Rat where
   beq a b := a == b
   ofInt i := (i : Rat)
   repr r := if r.den = 1 then toString r.num else s!"{r.num}/{r.den}"
+  toPair r := (r.num, r.den)
 
 instance : TimeLike Float where
   zero := 0
@@ -50,6 +53,7 @@ instance : TimeLike Float where
   beq a b := a == b
   ofInt i := Float.ofInt i
   repr f := toString f.toBits
+  toPair f := (f.toBits.toNat, 0)
 
 abbrev ActId := Nat
 abbrev SigId := Nat
@@ -93,6 +97,7 @@ inductive Pat where
 inductive Stmt (τ : Type) where
   | log (k : Int)
   | logNow
+  | logCond (c : CExpr τ)                            -- probe: `bool(c)` against the boolean-algebra reading
   | sleep (d : τ)                                    -- `await (time + d)`
   | awaitC (c : CExpr τ)
   | setFlag (f : Name) (b : Bool)
@@ -324,6 +329,8 @@ inductive Frame (τ : Type) where
   | foreverHib
   /-- statement-level marker below an `await <condition>`: logs the truth value at resumption -/
   | awaitMark (c : CondId)
+  | sleepMark
+  | tickEnd
   /-- `Condition.__await__`: inside the `while not self` loop / after the initial postpone -/
   | condLoop (c : CondId)
   /-- `Connective.__await_children__`: waiting for the initial postpone, or hibernating with subscriptions -/
